@@ -72,6 +72,17 @@ class C08(SCheck):
                 for (p, k) in srcs[:2]:
                     ops.append(gen.f_op("dst/%s.~%d~" % (p.split("/")[-1], r.choice([1, 4])), 5, pat=2))
         inv = gen.mk_inv(order, "dst", driver=driver, workers=workers, block_size=bs, r=True, n=True, **extra)
+        if idx % 9 == 7:
+            # two sources of the same name, one of them a symbolic link to an entry that already exists in the destination: whatever
+            # xcp makes of the name collision (cp refuses it), the existing entry must not be written through the just-made link
+            ops += [gen.d_op("in/x"), gen.d_op("in/y"), gen.f_op("dst/victim", 77, pat=5, mode=0o640), gen.d_op("dst/victimdir"), gen.f_op("dst/victimdir/data", 33, pat=6)]
+            tgt = r.choice(["victim", "$ROOT/dst/victim", "victim", "victimdir/data"])
+            ops.append(gen.l_op("in/x/l", tgt))
+            ops.append(gen.f_op("in/y/l", r.choice([10, 3000, min(cap, bs + 1)]), pat=r.randrange(1, 1 << 30)))
+            first = r.choice([["in/x/l", "in/y/l"], ["in/y/l", "in/x/l"]])
+            fill = [p for p, k in srcs if k in ("file", "big")][:r.randrange(0, 3)]
+            order = r.choice([first + fill, fill + first, first[:1] + fill + first[1:]])
+            inv = gen.mk_inv(order, "dst", driver=driver, workers=workers, block_size=bs, r=True, n=True)
         if idx % 9 == 4:
             # -n together with -T: one source (file, link, node or directory) named onto an existing entry / an existing tree
             p0, k0 = srcs[0]
